@@ -19,6 +19,24 @@ import ffcx
 import ffcx.codegeneration
 
 
+def _custom_quadrature_signature(elements) -> str:
+    """Compute an exact signature of the custom quadrature rules of elements.
+
+    UFL sees an element through its repr, where the points and weights of a
+    quadrature element are rounded and, for long arrays, elided.
+    """
+    signatures = []
+    for element in ufl.algorithms.analysis.extract_sub_elements(elements):
+        if getattr(element, "has_custom_quadrature", False):
+            rule = hashlib.sha1()
+            for array in element.custom_quadrature():
+                _array = np.ascontiguousarray(array, dtype=np.float64)
+                rule.update(str(_array.shape).encode("utf-8"))
+                rule.update(_array.tobytes())
+            signatures.append(rule.hexdigest())
+    return "".join(sorted(signatures))
+
+
 def compute_signature(
     ufl_objects: list[ufl.Form] | list[tuple[ufl.core.expr.Expr, npt.NDArray[np.floating]]],
     tag: str,
@@ -43,6 +61,9 @@ def compute_signature(
                         _array = np.ascontiguousarray(metadata[key], dtype=np.float64)
                         object_signature += key + str(_array.shape)
                         object_signature += hashlib.sha1(_array.tobytes()).hexdigest()
+            object_signature += _custom_quadrature_signature(
+                ufl.algorithms.extract_elements(ufl_object)
+            )
         elif isinstance(ufl_object, tuple) and isinstance(ufl_object[0], ufl.core.expr.Expr):
             expr = ufl_object[0]
             points = ufl_object[1]
@@ -81,6 +102,9 @@ def compute_signature(
             _points = np.ascontiguousarray(points, dtype=np.float64)
             object_signature += str(_points.shape)
             object_signature += hashlib.sha1(_points.tobytes()).hexdigest()
+            object_signature += _custom_quadrature_signature(
+                [f.ufl_element() for f in (*args, *coeffs)]
+            )
 
             kind = "expression"
         else:
